@@ -86,9 +86,26 @@ func genC05(t *rapid.T) c05Case {
 	n := rapid.IntRange(1, 8).Draw(t, "n")
 	sess := 0
 	liveSet := map[int]bool{}
+	var chose []int // sessions established with a CHOOSE F-TEID
 	for i := 0; i < n; i++ {
 		live := len(liveSet)
-		switch rapid.SampledFrom([]string{"est", "est", "estbad", "estbad", "modrej", "mod", "del", "strip", "reassoc"}).Draw(t, "k") {
+		switch rapid.SampledFrom([]string{"est", "est", "estbad", "estbad", "modrej", "mod", "del", "strip", "reassoc", "modteid"}).Draw(t, "k") {
+		case "modteid":
+			// Update PDR of the uplink PDR: the control plane restates it with an explicit F-TEID - the TEID the UP
+			// function chose for it (filled in at run time), or, on UP4, one of its own. A chosen TEID stays the
+			// session's until it ends; one that the rule has left may be released at once or with the session.
+			if len(chose) == 0 {
+				continue
+			}
+			si := chose[rapid.IntRange(0, len(chose)-1).Draw(t, "si")]
+			np := model.PDR{ID: 1, Prec: 10, Src: "access", FTEID: true, OHR: true, FAR: 1, QERs: []uint32{1}, N3: accessIP()}
+			op := model.Op{Kind: "mod", Peer: 0, Seq: uint32(300 + i), Sess: si, Note: "any", Extra: map[string]any{"teid": "echo"}}
+			if c.UP4 && rapid.Bool().Draw(t, "ownteid") {
+				np.TEID = uint32(0xb000 + 16*si + i)
+				op.Extra["teid"] = "own"
+			}
+			op.UpdPDRs = []model.PDR{np}
+			c.Ops = append(c.Ops, op)
 		case "reassoc":
 			// the peer sets the association up again on the same connection under another Node ID (a control plane
 			// that restarted and now names itself by FQDN or by another address); its sessions are kept
@@ -104,8 +121,12 @@ func genC05(t *rapid.T) c05Case {
 			if live >= capN {
 				continue
 			}
-			c.Ops = append(c.Ops, c05Sess(sess, rapid.Bool().Draw(t, "alloc"), rapid.Bool().Draw(t, "choose"), ""))
+			ch := rapid.Bool().Draw(t, "choose")
+			c.Ops = append(c.Ops, c05Sess(sess, rapid.Bool().Draw(t, "alloc"), ch, ""))
 			liveSet[sess] = true
+			if ch {
+				chose = append(chose, sess)
+			}
 			sess++
 		case "estbad":
 			if excluded("estRejectedAfterAlloc") {
@@ -212,8 +233,12 @@ func c05Invariant(r *Rig, run *sim.Runner, c c05Case, when string) error {
 	if pools["ip_held"] != wantIP || pools["ip_free"]+pools["ip_held"] != poolCap(c.Pool) {
 		return fmt.Errorf("%s: UE IP pool holds %d addresses (free %d) but live sessions hold %d (capacity %d)", when, pools["ip_held"], pools["ip_free"], wantIP, poolCap(c.Pool))
 	}
-	if pools["teid_held"] != wantTEID {
-		return fmt.Errorf("%s: %d UP-chosen TEIDs are still allocated but live sessions hold %d", when, pools["teid_held"], wantTEID)
+	limbo := 0 // TEIDs chosen for PDRs of live sessions that have since moved to a TEID of the control plane's own
+	for _, s := range live {
+		limbo += r.LimboTEID[s.Idx]
+	}
+	if pools["teid_held"] < wantTEID || pools["teid_held"] > wantTEID+limbo {
+		return fmt.Errorf("%s: %d UP-chosen TEIDs are still allocated but live sessions hold %d (and left %d more behind by Update PDR)", when, pools["teid_held"], wantTEID, limbo)
 	}
 	if r.P4 != nil && r.Base != nil {
 		nPDR, nQ := 0, 0
@@ -269,6 +294,46 @@ func runC05(c c05Case, ev *Ev) error {
 	defer run.Close()
 	rejected := 0
 	for i, op := range c.Ops {
+		if how, _ := op.Extra["teid"].(string); how != "" {
+			s := run.Sess[op.Sess]
+			var cur *model.PDR
+			if s != nil && s.Live {
+				for k := range s.PDRs {
+					if s.PDRs[k].ID == 1 {
+						cur = &s.PDRs[k]
+					}
+				}
+			}
+			if cur == nil || s.ChosenTEID[1] == 0 {
+				continue // the session is gone, was stripped of its PDRs, or holds no chosen TEID any more
+			}
+			up := append([]model.PDR(nil), op.UpdPDRs...)
+			if how == "echo" {
+				up[0].TEID = s.ChosenTEID[1]
+			}
+			op.UpdPDRs = up
+			o := run.Exec(op)
+			if o.NoResp || !o.Alive {
+				return fmt.Errorf("op %d (mod, Update PDR with explicit F-TEID): no response (alive=%v)", i, o.Alive)
+			}
+			if !o.Accepted && how == "own" {
+				// UP4 may refuse to move a rule to another key (C04); a refused request changes nothing
+				rejected++
+				ev.Label("mod/update-pdr-fteid-own-refused")
+				continue
+			}
+			if !o.Accepted {
+				return fmt.Errorf("op %d: Update PDR restating the uplink PDR with the F-TEID %d that was chosen for it rejected (cause %d)", i, up[0].TEID, o.Cause)
+			}
+			if how == "own" {
+				// nobody uses the chosen TEID any more
+				delete(s.ChosenTEID, 1)
+				delete(s.ChosenN3, 1)
+				r.LimboTEID[op.Sess]++
+			}
+			ev.Label("mod/update-pdr-fteid-" + how)
+			continue
+		}
 		o := run.Exec(op)
 		if o.NoResp || !o.Alive {
 			return fmt.Errorf("op %d (%s %s): no response (alive=%v)", i, op.Kind, op.Note, o.Alive)
